@@ -38,6 +38,10 @@ structure Spec where
   pol : PadPolicy
   deriving DecidableEq, Repr
 
+/-- NB: there is deliberately **no** `Config.MinVersion` / `Config.MaxVersion` here: `ApplyPreset` calls
+`SetTLSVers` first, which replaces both by the spec's range before `makeClientHelloForApplyPreset` reads
+them, so the hello (legacy_version in particular) is a function of the spec, not of what the caller had
+pinned in the Config (`C03.legacy_version_from_spec`; the tie varies the pinned values). -/
 structure Material where
   random : Bytes
   sessionId : Bytes
